@@ -20,6 +20,18 @@ ${ proof-rule-mp.0 $e |- ( \\imp ph0 ph1 ) $. proof-rule-mp.1 $e |- ph0 $. proof
 _conv = None
 
 
+_convs = {}
+
+
+def conv_for(vorder):
+    """converter of the preamble with the $v statement in the given order (the $f statements keep theirs)"""
+    key = ' '.join(vorder)
+    if key not in _convs:
+        pre = PREAMBLE.replace('$v ph0 ph1 ph2 ph3 $.', '$v ' + key + ' $.')
+        _convs[key] = (pre, MetamathConverter(parse_database(pre)))
+    return _convs[key]
+
+
 def conv():
     global _conv
     if _conv is None:
@@ -56,11 +68,12 @@ def do_mmdecode(req):
             body_term = f'( \\imp {x} {body_term} )'
     ws = req.get('ws', [' ', ' ', ' '])
     proof = '(' + ws[0] + ws[0].join(req['listed']) + (ws[0] if req['listed'] else '') + ')' + ws[1] + req['layout'].replace('_', ws[2])
-    src = PREAMBLE + f'g $p |- {body_term} $= {proof} $.'
     try:
+        pre, cv = conv_for(req.get('vorder') or ['ph0', 'ph1', 'ph2', 'ph3'])
+        src = pre + f'g $p |- {body_term} $= {proof} $.'
         st = parse_database(src).statements[-1]
         assert isinstance(st, ProvableStatement)
-        pr = conv()._import_proof(st)
+        pr = cv._import_proof(st)
         n = len(pr.labels)
         return {'out': 'ok', 'labels': [pr.labels[k] for k in range(1, n + 1)] if sorted(pr.labels) == list(range(1, n + 1)) else ['<gap>'],
                 'steps': pr.applied_lemmas}
